@@ -12,8 +12,9 @@
    their conclusions: the results are functions of the data alone. *)
 From Coq Require Import List NArith Arith Lia.
 From NV Require Import Io.Source Io.ReadExact Io.ReadExactProofs Io.BufReader Io.BufReaderProofs
-  Io.FastaScan Io.FastaScanProofs Io.FastaIndex Io.FastaIndexProofs Io.Run Io.RunProofs.
-From NV Require Fasta.Layout Fasta.Indexer Fasta.WholeFile.
+  Io.FastaScan Io.FastaScanProofs Io.FastaIndex Io.FastaIndexProofs Io.FastqRead Io.FastqReadProofs Io.HeaderRead Io.HeaderReadProofs Io.BgzfRead Io.BgzfReadProofs Io.BedRead Io.BedReadProofs Io.BedBridge Io.TabRead Io.TabReadProofs Io.Run Io.RunProofs.
+From NV Require Fasta.Layout Fasta.Indexer Fasta.WholeFile Fasta.Fastq Bgzf.Frame Bgzf.Reader Bgzf.ReaderOps
+  Text.TextBase Text.BedRec.
 Import ListNotations.
 
 (* every delivery script (any split sizes, any placement of Interrupted) is a simulating reader;
@@ -234,6 +235,246 @@ Proof.
 Qed.
 Print Assumptions c12_fasta_index_file_delivery_is_naive_parse.
 
+(* ---- FASTQ record reader (read_u8 + memchr3 name loop over fill_buf windows + read_line +
+   consume_plus_line + consume_line): one read_record under any delivery returns C11's whole-buffer
+   result on the data (record or error) and leaves the reader exactly at the unread rest *)
+Theorem c12_fastq_read_record_chunk_indep :
+  forall (S : Type) (rd : reader S) (Rep : S -> list N -> nat -> Prop), simulates rd Rep ->
+  forall cap, 1 <= cap ->
+  forall fuel st d m, rep_buf Rep st d m -> m + length d + 1 < fuel ->
+    match Fastq.read_qrec d with
+    | inl e => exists st', d_read_qrec rd cap fuel st = (inl e, st')
+    | inr None => exists st', d_read_qrec rd cap fuel st = (inr None, st')
+    | inr (Some (r, rest)) =>
+        exists st' m', d_read_qrec rd cap fuel st = (inr (Some r), st')
+                       /\ rep_buf Rep st' rest m' /\ m' <= m /\ length rest < length d
+    end.
+Proof. exact (@d_read_qrec_spec). Qed.
+Print Assumptions c12_fastq_read_record_chunk_indep.
+
+(* the records() loop, and on the scripted source: any script, any capacity = C11's read_qfile *)
+Theorem c12_fastq_reader_whole_file_chunk_indep :
+  forall (S : Type) (rd : reader S) (Rep : S -> list N -> nat -> Prop), simulates rd Rep ->
+  forall cap, 1 <= cap ->
+  forall j fuel st d m, rep_buf Rep st d m -> m + length d + 1 < fuel ->
+    exists st', d_read_qrecs rd cap j fuel st = (Fastq.read_qrecs j d, st').
+Proof. exact (@d_read_qrecs_spec). Qed.
+Print Assumptions c12_fastq_reader_whole_file_chunk_indep.
+
+Theorem c12_fastq_read_file_any_delivery :
+  forall data sc cap, 1 <= cap ->
+    exists st', run_fastq cap (mkSource data sc) = (Fastq.read_qfile data, st').
+Proof. exact run_fastq_spec. Qed.
+Print Assumptions c12_fastq_read_file_any_delivery.
+
+(* FASTQ indexer (read_definition with its byte count + UTF-8 check + three raw read_until lines):
+   under any delivery the fai records, offsets and the final error are C11's index_qfile of the data *)
+Theorem c12_fastq_indexer_whole_file_chunk_indep :
+  forall (S : Type) (rd : reader S) (Rep : S -> list N -> nat -> Prop), simulates rd Rep ->
+  forall cap, 1 <= cap ->
+  forall j fuel st d m off, rep_buf Rep st d m -> m + length d + 1 < fuel ->
+    exists st', d_index_qrecs rd cap j fuel st off = (Fastq.index_qrecs j d off, st').
+Proof. exact (@d_index_qrecs_spec). Qed.
+Print Assumptions c12_fastq_indexer_whole_file_chunk_indep.
+
+Theorem c12_fastq_index_file_any_delivery :
+  forall data sc cap, 1 <= cap ->
+    exists st', run_fastq_index cap (mkSource data sc) = (Fastq.index_qfile data, st').
+Proof. exact run_fastq_index_spec. Qed.
+Print Assumptions c12_fastq_index_file_any_delivery.
+
+(* ---- SAM ('@') and VCF ('#') header readers: the adapter that peeks at the first byte of a
+   fill_buf window when a line starts.  Under every delivery read_header's read_line loop hands the
+   parser exactly the (LF/CRLF-stripped) lines of the longest run of lines that begin with the
+   prefix, and the reader is left at the first other line (k > |d| bounds the number of lines).
+   The hypothesis on is_eol is the initial state of header::Reader (is_eol = true). *)
+Theorem c12_header_reader_chunk_indep :
+  forall (S : Type) (rd : reader S) (Rep : S -> list N -> nat -> Prop), simulates rd Rep ->
+  forall cap, 1 <= cap ->
+  forall prefix k fuel is_eol st d m,
+    rep_buf Rep st d m -> length d < k -> m + length d + 1 < fuel -> (is_eol = true \/ d = []) ->
+    exists st' m' e,
+      h_read_lines rd cap prefix k fuel is_eol st
+        = (map strip_eol (fst (hdr_closed k prefix d)), UOk, e, st')
+      /\ rep_buf Rep st' (snd (hdr_closed k prefix d)) m' /\ m' <= m.
+Proof. exact (@h_read_lines_spec). Qed.
+Print Assumptions c12_header_reader_chunk_indep.
+
+(* the same at the BufRead interface of header_reader() (raw lines; what the L2 check drives) *)
+Theorem c12_header_reader_raw_lines_chunk_indep :
+  forall (S : Type) (rd : reader S) (Rep : S -> list N -> nat -> Prop), simulates rd Rep ->
+  forall cap, 1 <= cap ->
+  forall prefix k fuel is_eol st d m,
+    rep_buf Rep st d m -> length d < k -> m + length d + 1 < fuel -> (is_eol = true \/ d = []) ->
+    exists st' m' e,
+      h_raw_lines rd cap prefix k fuel is_eol st = (fst (hdr_closed k prefix d), UOk, e, st')
+      /\ rep_buf Rep st' (snd (hdr_closed k prefix d)) m' /\ m' <= m.
+Proof. exact (@h_raw_lines_spec). Qed.
+Print Assumptions c12_header_reader_raw_lines_chunk_indep.
+
+Theorem c12_header_reader_any_delivery :
+  forall prefix data sc cap, 1 <= cap ->
+  exists st' m' e,
+    h_raw_lines src_read cap prefix (Datatypes.S (length data)) (b_fuel ([], mkSource data sc) 0) true
+      ([], mkSource data sc)
+    = (fst (hdr_closed (Datatypes.S (length data)) prefix data), UOk, e, st')
+    /\ rep_buf rep_src st' (snd (hdr_closed (Datatypes.S (length data)) prefix data)) m'.
+Proof. exact run_header_lines_spec. Qed.
+Print Assumptions c12_header_reader_any_delivery.
+
+(* ---- bgzf::io::Reader over a chunked source.  read_frame_into (read_exact(18), BSIZE check,
+   read_exact(rest)) over ANY simulating reader returns what C01's whole-buffer [Reader.read_frame]
+   returns on the data: the same frame and rest, or the same end / error *)
+Theorem c12_bgzf_read_frame_chunk_indep :
+  forall (S : Type) (rd : reader S) (Rep : S -> list N -> nat -> Prop), simulates rd Rep ->
+  forall fuel s d m, Rep s d m -> m + 18 < fuel ->
+    match Bgzf.Reader.read_frame d with
+    | Bgzf.Frame.Ok None => exists s', d_read_frame rd fuel s = (DEof, s')
+    | Bgzf.Frame.Err e => exists s', d_read_frame rd fuel s = (DErr e, s')
+    | Bgzf.Frame.Ok (Some (f, rest)) =>
+        exists s' m', d_read_frame rd fuel s = (DFrame f, s')
+                      /\ Rep s' rest m' /\ m' <= m /\ length rest < length d
+    | Bgzf.Frame.Panic => True
+    end.
+Proof. exact (@d_read_frame_spec). Qed.
+Print Assumptions c12_bgzf_read_frame_chunk_indep.
+
+(* all frames, parsed with C01's parse_block (inflate = a parameter: the external DEFLATE decoder):
+   the list of (compressed size, data) frames and the final result are those of the whole data *)
+Theorem c12_bgzf_frames_chunk_indep :
+  forall (S : Type) (rd : reader S) (Rep : S -> list N -> nat -> Prop), simulates rd Rep ->
+  forall (inflate : list N -> N -> option (list N)) k fuel s d m, Rep s d m -> m + 18 < fuel ->
+    exists s', d_read_frames rd inflate k fuel s = (whole_frames inflate k d, s').
+Proof. exact (@d_read_frames_spec). Qed.
+Print Assumptions c12_bgzf_frames_chunk_indep.
+
+(* their data is C01's read_to_end view of the same input *)
+Theorem c12_bgzf_whole_frames_are_read_blocks :
+  forall inflate k d,
+    (map Bgzf.ReaderOps.fdata (fst (whole_frames inflate k d)), snd (whole_frames inflate k d))
+    = Bgzf.Reader.read_blocks inflate k d.
+Proof. exact whole_frames_read_blocks. Qed.
+Print Assumptions c12_bgzf_whole_frames_are_read_blocks.
+
+(* composed with C02's position state machine (ReaderOps.fill_buf / consume on the parsed frames):
+   for every script, raw source (cap = 0) or BufReader of any capacity, the sequence of
+   (block offset, block data), Reader::position() and the final result are those of the whole data *)
+Theorem c12_bgzf_reader_any_delivery :
+  forall inflate data sc cap, run_bgzf inflate cap (mkSource data sc) = whole_bgzf inflate data.
+Proof. exact run_bgzf_spec. Qed.
+Print Assumptions c12_bgzf_reader_any_delivery.
+
+(* and every operation of C02's ReaderOps started on the delivered frames is the operation on the
+   frames of the whole data (here: the caller-side read-to-end loop with an n-byte buffer) *)
+Theorem c12_bgzf_reader_ops_delivery_indep :
+  forall inflate data sc fx n,
+    let k := Datatypes.S (length data) in
+    Bgzf.ReaderOps.read_all fx
+      (Bgzf.ReaderOps.init (fst (fst (d_read_frames src_read inflate k (src_fuel (mkSource data sc) 18)
+                                         (mkSource data sc))))) n
+    = Bgzf.ReaderOps.read_all fx (Bgzf.ReaderOps.init (fst (whole_frames inflate k data))) n.
+Proof.
+  intros inflate data sc fx n k.
+  destruct (d_read_frames_spec src_read rep_src src_simulates inflate k
+              (src_fuel (mkSource data sc) 18) (mkSource data sc) data (n_interrupted sc)) as [s' E].
+  - split; reflexivity.
+  - unfold src_fuel. cbn [s_data s_script]. lia.
+  - rewrite E. reflexivity.
+Qed.
+Print Assumptions c12_bgzf_reader_ops_delivery_indep.
+
+(* ---- BED record reader: a field scanner over fill_buf windows (skip_comment_lines with its '#'
+   peek, discard_line, read_field with memchr2 and the extra fill_buf after the delimiter,
+   read_required_field, read_other_fields; the same read_field is noodles-sam's).  One read_record_N
+   under any delivery returns the whole-buffer closed form on the data: same io result, same record
+   buffer and bounds (including the stale bounds a reused record keeps), and the reader is left at
+   the same rest.  k > m + |d| bounds the comment-skipping and other-fields loops. *)
+Theorem c12_bed_read_record_chunk_indep :
+  forall (S : Type) (rd : reader S) (Rep : S -> list N -> nat -> Prop), simulates rd Rep ->
+  forall cap, 1 <= cap ->
+  forall n k fuel st d m old,
+    rep_buf Rep st d m -> m + length d < k -> m + length d + 2 < fuel ->
+    exists st' m',
+      d_bed_read_record rd cap n k fuel st old
+        = (fst (fst (w_bed_read_record n d old)), snd (w_bed_read_record n d old), st')
+      /\ rep_buf Rep st' (snd (fst (w_bed_read_record n d old))) m' /\ m' <= m
+      /\ length (snd (fst (w_bed_read_record n d old))) <= length d.
+Proof. exact (@d_bed_read_record_spec). Qed.
+Print Assumptions c12_bed_read_record_chunk_indep.
+
+(* the caller's loop over one reused record (going on after errors), with C18's accessor views *)
+Theorem c12_bed_reader_any_delivery :
+  forall n j data sc cap, 1 <= cap ->
+    exists st', run_bed n j cap (mkSource data sc)
+                = (w_bed_read_raw j n data (BedRec.bed_default n), st').
+Proof. exact run_bed_spec. Qed.
+Print Assumptions c12_bed_reader_any_delivery.
+
+(* the closed form is C18's whole-buffer model (NV.Text.BedRec, after /repo 6993cf2), so the
+   delivered reader returns what C18's bed_read_raw returns on the data *)
+Theorem c12_bed_reader_is_c18_model :
+  forall n j data sc cap, 1 <= cap ->
+    exists st', run_bed n j cap (mkSource data sc)
+                = (BedRec.bed_read_raw j n data (BedRec.bed_default n), st').
+Proof.
+  intros n j data sc cap Hcap. destruct (run_bed_spec n j data sc cap Hcap) as [st' E].
+  exists st'. rewrite E. rewrite w_bed_read_raw_eq. reflexivity.
+Qed.
+Print Assumptions c12_bed_reader_is_c18_model.
+
+(* ---- lazy SAM record reader (10 required fields + the last one with BED's read_field, then the
+   rest of the line with read_line into the same buffer): io result, record buffer, field ends and
+   the rest of the input are the closed form on the data, for every delivery *)
+Theorem c12_sam_read_record_chunk_indep :
+  forall (S : Type) (rd : reader S) (Rep : S -> list N -> nat -> Prop), simulates rd Rep ->
+  forall cap, 1 <= cap ->
+  forall fuel st d m, rep_buf Rep st d m -> m + length d + 2 < fuel ->
+    exists st' m',
+      d_sam_read_record rd cap fuel st
+        = (fst (fst (fst (w_sam_read_record d))), snd (fst (fst (w_sam_read_record d))),
+           snd (fst (w_sam_read_record d)), st')
+      /\ rep_buf Rep st' (snd (w_sam_read_record d)) m' /\ m' <= m
+      /\ length (snd (w_sam_read_record d)) <= length d.
+Proof. exact (@d_sam_read_record_spec). Qed.
+Print Assumptions c12_sam_read_record_chunk_indep.
+
+Theorem c12_sam_records_any_delivery :
+  forall data sc cap, 1 <= cap ->
+    exists st', run_sam_records cap (mkSource data sc)
+                = (fst (tab_loop w_sam_read_record (Datatypes.S (length data)) data), st').
+Proof. exact run_sam_records_spec. Qed.
+Print Assumptions c12_sam_records_any_delivery.
+
+(* ---- lazy VCF record reader.  Its read_field validates UTF-8 per fill_buf window, so the
+   unconditional statement is FALSE: the same record read through capacity 1 and capacity 64 *)
+Definition c12_vcf_read_record_full_statement : Prop :=
+  forall data sc1 sc2 cap1 cap2, 1 <= cap1 -> 1 <= cap2 ->
+    fst (run_vcf_records cap1 (mkSource data sc1)) = fst (run_vcf_records cap2 (mkSource data sc2)).
+
+Definition vcf_utf8_witness : list N :=
+  [115; 9; 49; 9; 195; 169; 9; 65; 9; 46; 9; 46; 9; 46; 9; 46; 10]%N.   (* s 1 "e-acute" A . . . . *)
+
+Theorem c12_vcf_read_record_refuted : ~ c12_vcf_read_record_full_statement.
+Proof.
+  intros H. specialize (H vcf_utf8_witness [] [] 1 64 ltac:(lia) ltac:(lia)).
+  vm_compute in H. discriminate.
+Qed.
+Print Assumptions c12_vcf_read_record_refuted.
+
+(* outside the known class (all bytes < 128) the VCF record reader is delivery independent *)
+Theorem c12_vcf_read_record_ascii_chunk_indep :
+  forall (S : Type) (rd : reader S) (Rep : S -> list N -> nat -> Prop), simulates rd Rep ->
+  forall cap, 1 <= cap ->
+  forall fuel st d m, rep_buf Rep st d m -> m + length d + 2 < fuel -> ascii d = true ->
+    exists st' m',
+      d_vcf_read_record rd cap fuel st
+        = (fst (fst (fst (w_vcf_read_record d))), snd (fst (fst (w_vcf_read_record d))),
+           snd (fst (w_vcf_read_record d)), st')
+      /\ rep_buf Rep st' (snd (w_vcf_read_record d)) m' /\ m' <= m
+      /\ length (snd (w_vcf_read_record d)) <= length d.
+Proof. exact (@d_vcf_read_record_ascii_spec). Qed.
+Print Assumptions c12_vcf_read_record_ascii_chunk_indep.
+
 (* ---- non-vacuity *)
 (* a script with 1-byte deliveries and an Interrupted in the middle: read_exact 4 of "abcdef" *)
 Example c12_example_read_exact :
@@ -270,4 +511,51 @@ Example c12_example_index_file :
   fst (run_index_file 1 (mkSource f [Interrupted; Deliver 1; Interrupted])) = Indexer.index_file f /\
   fst (run_index_file 3 (mkSource f [Deliver 2; Deliver 1])) = Indexer.index_file f /\
   length (fst (Indexer.index_file f)) = 2 /\ snd (Indexer.index_file f) = None.
+Proof. vm_compute. repeat split. Qed.
+
+(* FASTQ: CRLF name line without description (the former capacity-dependent class), capacity 1 / 4 *)
+Example c12_example_fastq :
+  let f := [64; 114; 13; 10; 65; 67; 13; 10; 43; 13; 10; 33; 33; 13; 10]%N in
+  fst (run_fastq 1 (mkSource f [Interrupted; Deliver 1])) = Fastq.read_qfile f /\
+  fst (run_fastq 4 (mkSource f [Deliver 3])) = Fastq.read_qfile f /\
+  fst (Fastq.read_qfile f) = [Fastq.mkqrec [114] [] [65; 67] [33; 33]]%N /\
+  fst (run_fastq_index 2 (mkSource f [Interrupted; Deliver 1])) = Fastq.index_qfile f /\
+  length (fst (Fastq.index_qfile f)) = 1.
+Proof. vm_compute. repeat split. Qed.
+
+(* header reader: "@a\n@b" + record line; capacity 1 (the peek sees one byte) and capacity 64 *)
+Example c12_example_header :
+  let f := [64; 97; 10; 64; 98; 13; 10; 114; 64; 10; 64; 99; 10]%N in
+  fst (fst (fst (fst (run_header 64 1 (mkSource f [Interrupted; Deliver 1; Interrupted])))))
+    = [[64; 97; 10]; [64; 98; 13; 10]]%N /\
+  fst (fst (fst (fst (run_header 64 64 (mkSource f [])))))
+    = [[64; 97; 10]; [64; 98; 13; 10]]%N /\
+  snd (fst (run_header 64 2 (mkSource f [Deliver 1]))) = [[114; 64; 10]; [64; 99; 10]]%N.
+Proof. vm_compute. repeat split. Qed.
+
+(* bgzf: two EOF-marker frames, 1-byte deliveries with Interrupted, raw and behind a BufReader;
+   inflate instance: the empty stored stream only *)
+Example c12_example_bgzf :
+  let inf := fun (c : list N) (n : N) => if (n =? 0)%N then Some ([] : list N) else None in
+  let f := (bgzf_eof_block ++ bgzf_eof_block)%list in
+  run_bgzf inf 0 (mkSource f [Deliver 1; Interrupted; Deliver 5]) = whole_bgzf inf f /\
+  run_bgzf inf 7 (mkSource f [Interrupted; Deliver 3]) = whole_bgzf inf f /\
+  snd (fst (whole_bgzf inf f)) = 56%N.
+Proof. vm_compute. repeat split. Qed.
+
+(* BED3: comment line, CRLF record with an extra field, capacity 1 with Interrupted / capacity 5 *)
+Example c12_example_bed :
+  let f := [35; 99; 9; 10; 115; 9; 49; 9; 50; 9; 120; 13; 10]%N in
+  fst (run_bed 3 4 1 (mkSource f [Interrupted; Deliver 1; Interrupted]))
+    = w_bed_read_raw 4 3 f (BedRec.bed_default 3) /\
+  fst (run_bed 3 4 5 (mkSource f [Deliver 2])) = w_bed_read_raw 4 3 f (BedRec.bed_default 3) /\
+  map fst (w_bed_read_raw 4 3 f (BedRec.bed_default 3)) = [TextBase.Ok 9; TextBase.Ok 0].
+Proof. vm_compute. repeat split. Qed.
+
+(* SAM record: 11 fields + optional data, CRLF, capacity 1 with Interrupted = one window *)
+Example c12_example_sam :
+  let f := [114; 9; 52; 9; 42; 9; 48; 9; 48; 9; 42; 9; 42; 9; 48; 9; 48; 9; 65; 9; 33; 9; 88; 13; 10]%N in
+  fst (run_sam_records 1 (mkSource f [Interrupted; Deliver 1])) = fst (run_sam_records 64 (mkSource f [])) /\
+  map (fun x => fst (fst x)) (fst (run_sam_records 3 (mkSource f [Deliver 2])))
+    = [TextBase.Ok 25; TextBase.Ok 0].
 Proof. vm_compute. repeat split. Qed.
